@@ -89,6 +89,18 @@ SUITES["tunnel"] = dict(
     batches={"quick": 6, "thorough": 16}, timeout={"quick": 400, "thorough": 3000},
 )
 
+SUITES["probe"] = dict(
+    test="TestProbe", coq_module="Cases.ProbeCase", case_type="pr_case", eval="eval_pr_case",
+    cols=["diff", "mon_c19_stop_returns", "mon_c19_no_probe_after", "nt_c19", "nt_c04"],
+    batches={"quick": 4, "thorough": 16}, timeout={"quick": 300, "thorough": 3000},
+)
+
+SUITES["sigterm"] = dict(
+    test="TestSigterm", coq_module="Cases.ProbeCase", case_type="sg_case", eval="eval_sg_case", needs_binary=True,
+    cols=["diff", "mon_c19_drains", "mon_c19_exits_in_time", "nt_c19"],
+    batches={"quick": 8, "thorough": 16}, timeout={"quick": 300, "thorough": 1200},
+)
+
 PROPS = {
     "C09": dict(
         props_file="Props/C09.v",
@@ -212,14 +224,18 @@ PROPS["C02"] = dict(
 PROPS["C04"] = dict(
     props_file="Props/C04.v",
     suites=[dict(suite="lbseq", corr=["diff_begin", "diff_admin"], monitors=["mon_c04_list", "mon_c04_only_after", "mon_c04_mirror", "mon_c02_disp", "mon_c02_503"],
-                 classifiers={}, nontrivial="nt_c04")],
-    rule="balancer histories with failed (5xx / unreachable) and good responses per backend, thresholds 1..3, windows 1/5/30 s straddled "
+                 classifiers={}, nontrivial="nt_c04"),
+            dict(suite="probe", corr=["diff"], monitors=[], classifiers={}, nontrivial="nt_c04")],
+    rule="probe suite: the real balancer with active checks under virtual time (1-4 backends, intervals 5/10/30 s, probe timeouts, windows "
+         "0..60 s, per-backend scripted probe results ok / 500 / transport error / no answer, gaps on interval / timeout / window +-1 ns): "
+         "which backends each tick probes and which backends then receive traffic; lbseq: "
+         "balancer histories with failed (5xx / unreachable) and good responses per backend, thresholds 1..3, windows 1/5/30 s straddled "
          "by +-1 ns, all five strategies, List and metrics snapshots; non-trivial = the history contains a failed response; distinct = by case hash",
     level_text="Theorems: passive counter semantics (ejection exactly when the per-name count reaches the threshold, reset then, never "
                "touched by successes), ejection opens [now, now+timeout], the gate is exactly the window (no traffic inside, eligible as "
                "soon as it has elapsed), a successful probe never ejects. Reporting (List / metrics mirror never show an ejected backend "
                "healthy) and recovery under every strategy are monitored on implementation traces. Tie: lbseq histories.",
-    level_note=_LB_NOTE + " Active probing is covered by the probe model only (probe ticks are not yet driven in the harness); the expiry-vs-ejection race is not explored at step level.",
+    level_note=_LB_NOTE + " Active probing is tied by the probe suite (Model/Shutdown.v); the expiry-vs-ejection race is not explored at step level.",
     trusted_base=_LB_TRUST, assumptions=["virtual time non-decreasing"],
 )
 PROPS["C11"] = dict(
@@ -255,7 +271,9 @@ PROPS["C13"] = dict(
 PROPS["C03"] = dict(
     props_file="Props/C03.v",
     suites=[dict(suite="lbseq", corr=["diff_begin", "diff_end"], monitors=["mon_c03_recover"],
-                 classifiers={}, nontrivial="nt_c03")],
+                 classifiers={}, nontrivial="nt_c03"),
+            # backend faults as the active checker sees them (refused, wrong status, no answer): the process must survive every one
+            dict(suite="probe", corr=["diff"], monitors=["mon_c19_stop_returns"], classifiers={}, nontrivial="nt_c04")],
     rule="every lbseq history (faults: 5xx, transport error, abort mid-body, with breaker / limiter / passive checks on or off, all "
          "strategies, overlapping) is followed by the recovery script: end everything in flight, wait past every timer, add a fresh "
          "backend, three well-behaved requests that must be dispatched and answered 200, final metrics with zero gauges; "
@@ -438,6 +456,27 @@ PROPS["C20"] = dict(
                "running clean-up of the same backend. The proxy path never calls Put (stated; the pool is exercised through its API).",
     trusted_base=["Model/WSPool.v (hand-written; tied by the wspool suite)", "go2coq Gen/Wrappers.v"],
     assumptions=["holders Put / Close only connections they hold or have just dialled", "virtual time non-decreasing"],
+)
+
+PROPS["C19"] = dict(
+    props_file="Props/C19.v",
+    suites=[dict(suite="probe", corr=["diff"], monitors=["mon_c19_stop_returns", "mon_c19_no_probe_after"], classifiers={}, nontrivial="nt_c19"),
+            dict(suite="sigterm", corr=[], monitors=["mon_c19_drains", "mon_c19_exits_in_time"], classifiers={}, nontrivial="nt_c19")],
+    rule="probe: the real balancer with active checks under virtual time; Stop placed before the first tick, while probes get no answer, "
+         "between ticks, after ticks, twice in a row and from three goroutines at once; Stop must return without time passing, the probes "
+         "in flight are the ones cancelled, and no probe is sent during three further intervals. sigterm: the real binary receives "
+         "SIGTERM / SIGINT (once or repeatedly) while a request waits for the backend's header or is half way through its body, with and "
+         "without active checks against a health endpoint that never answers: the request must complete with its whole body and the process "
+         "must exit 0 within the configured shutdown timeout; non-trivial = Stop with a probe in flight or repeated, or a request / hanging "
+         "probe in flight at the signal; distinct = by case hash",
+    level_text="PARTIAL. Theorems over the protocol model: Stop leaves no probe in flight and marks the balancer stopped; over every later "
+               "history no tick probes anything (invariant Quiet); a second Stop changes nothing; the pool's Shutdown closes everything it "
+               "holds. That Stop returns, that in-flight requests are drained and that the process exits in time are runtime behaviour "
+               "(http.Server.Shutdown, context cancellation, WaitGroup): decided on every run by the two suites, not proved.",
+    level_note="Trusted: Coq kernel, harness (scripted http.DefaultTransport for probes, synctest clock; process control and signals for the "
+               "binary), Model/Shutdown.v.",
+    trusted_base=["Model/Shutdown.v (hand-written; tied by the probe suite)"],
+    assumptions=["probe results are the four scripted classes", "loopback sockets, real time for the sigterm suite (slack 500 ms)"],
 )
 
 # properties not claimed, each with a one-line reason (kept current as checks are added)
